@@ -145,6 +145,54 @@ def r18_1(prog, out):
                     # the literal value itself never reaches the parser; is only a length constant derived from it used?
                     out.violation(key, prog.loc(pid), "the canonical form writes the segment %r but the parser never compares it by content "
                                   "(only a length derived from it is used): any text of the same length is accepted in its place" % lit)
+            # a segment that is not a literal in the formatter but a `&str` field of a descriptor value (`self.segment` of a
+            # `Collection` constant): written from, and compared against, the same field
+            own = {f["name"] for v in prog.facts.adt(ty)["variants"] for f in v["fields"]}
+            wf = set()
+
+            def str_fields(bi2):
+                got = set()
+                for blk in bi2.body.blocks:
+                    if blk.cleanup or blk.idx not in bi2.cfg.reach:
+                        continue
+                    places = []
+                    for st in blk.stmts:
+                        if st.k == "assign":
+                            places += [o.place for o in st.rv.ops if o.place is not None]
+                            if st.rv.place is not None:
+                                places.append(st.rv.place)
+                    if blk.term.k == "call":
+                        places += [a.place for a in blk.term.args if a.place is not None]
+                    for pl in places:
+                        if not pl.proj:
+                            continue
+                        o = bi2.trace(pl)
+                        for pe in (o.path or ()):
+                            if isinstance(pe, tuple) and len(pe) >= 3 and pe[0] == "f" and str(pe[2]).startswith("crate::") and pe[2] != ty:
+                                f = prog.facts.adt_field(pe[2], pe[1])
+                                if f is not None and f["ty"].replace("'static ", "") == "&str":
+                                    got.add((pe[2], pe[1]))
+                return got
+            for bid in prog.cone(disp, follow=("call", "closure")):
+                wf |= {c for c in str_fields(prog.info(bid)) if c[1] not in own}
+            for cell in sorted(wf):
+                key = "%s:%s:field:%s.%s" % (label, prog.short(pid).split("::")[-1], short_ty(cell[0]), cell[1])
+                hit = None
+                for bid in prog.cone(pid, follow=("call", "closure")):
+                    bi2 = prog.info(bid)
+                    if bi2 is None:
+                        continue
+                    for bb, t in bi2.calls(lambda c: c.path in CONTENT_MATCH):
+                        for a in t.args[1:]:
+                            if a.place is None:
+                                continue
+                            o = bi2.trace(a)
+                            if any(isinstance(pe, tuple) and len(pe) >= 3 and pe[0] == "f" and (pe[2], pe[1]) == cell for pe in (o.path or ())):
+                                hit = (bid, bb, t.callee.path.split("::")[-1])
+                if hit:
+                    out.holds(key, prog.loc(hit[0], hit[1]), "the segment is written from %s.%s and compared by content (%s) against the same field" % (short_ty(cell[0]), cell[1], hit[2]))
+                else:
+                    out.violation(key, prog.loc(pid), "the canonical form writes the segment held in %s.%s but the parser never compares the input with it by content" % (short_ty(cell[0]), cell[1]))
 
 
 def call_projection(prog, body_id):
